@@ -27,9 +27,7 @@ are the same structs) and C02 (verification is Algorithm 8) these are the ingred
   the verifier's `NTT^-1(A_hat ∘ NTT(z) - NTT(c) ∘ NTT(t1 2^d))` is `A y - c s2 + c t0` modulo q, row by row.
 * `accepted_attempt_verifies`: an accepted attempt of Algorithm 7 (lines 11-29) passes lines 5-13 of Algorithm 8: same `c`, same
   `w1` (all of the above, lifted to vectors), same commitment hash, norm test passed.
-* `signature_verifies_spec_partial`: Algorithm 8 returns `true` on what Algorithm 7 emits, through the rejection loop and the
-  byte encoder, under one named hypothesis (`hcodec`: the emitted bytes decode to what was encoded).  Algorithms 7 and 8 here are
-  the exact specifications `signSpec` / `verifySpec` that C03 / C02 prove equal to the crate's `sign_internal` / `verify_internal`.
+* the assembly (`signature_verifies_spec`, `sign_then_verify`, the API-level corollaries) is in `Props/C01c`.
 -/
 namespace Fips204.Props.C01
 open Fips204 Fips204.Gen
@@ -102,25 +100,5 @@ theorem accepted_attempt_verifies (m : Mode) (O : Impl.Oracles) (hO : Impl.Oracl
       mu cT z h = .ok true := by
   obtain ⟨hg, hbeta, hbg, htau, heta⟩ := c01_params p hp
   exact Impl.attempt_verifies m O hO p hg hbeta hbg htau heta aHat s1 s2 hA hs1 hs2 hs2b hk mu rhoPP kappa hyS cT z h hatt
-
-/-- **Algorithm 8 accepts what Algorithm 7 emits** (exact specifications; `_partial`: the hypothesis `hcodec`, that the emitted bytes
-    decode back to the `(c~, z, h)` that were encoded, is not yet discharged by a theorem - the correspondence checks it on every run) -/
-theorem signature_verifies_spec_partial (m : Mode) (O : Impl.Oracles) (hO : Impl.OracleOk O) (p : ParamSet)
-    (hp : p ∈ [ml_dsa_44, ml_dsa_65, ml_dsa_87])
-    (fuel : Nat) (rho key tr : List Nat) (s1 s2 : List Impl.Poly) (aHat : List (List Impl.Poly)) (hexp : Impl.expandA m O false p rho = .ok aHat)
-    (hA : ∀ row ∈ aHat, ∀ a ∈ row, a.length = 256) (hk : aHat.length = s2.length)
-    (hs1 : s1.length = p.l ∧ ∀ u ∈ s1, u.length = 256) (hs2 : ∀ u ∈ s2, u.length = 256)
-    (hs2b : ∀ u ∈ s2, ∀ x ∈ u, -p.eta ≤ x ∧ x ≤ p.eta)
-    (msg ctx oid phm rnd : List Nat) (nist : Bool) (out : Impl.SignOut)
-    (hsign : Impl.signSpec m O p fuel rho key tr s1 s2
-      ((List.zipWith (fun row s2r => Impl.tRowS row s1 s2r) aHat s2).map (fun q => q.map (fun x => (Spec.power2round x).2)))
-      msg ctx oid phm rnd nist = .ok out)
-    (hcodec : ∀ cT z h, Impl.sigEncode m false p cT z h = .ok out.sig → Impl.sigDecode m p out.sig = .ok (some (cT, z, h))) :
-    Impl.verifySpec m O false p rho tr
-      ((List.zipWith (fun row s2r => Impl.tRowS row s1 s2r) aHat s2).map (fun q => q.map (fun x => (Spec.power2round x).1)))
-      msg out.sig ctx oid phm nist = .ok true := by
-  obtain ⟨hg, hbeta, hbg, htau, heta⟩ := c01_params p hp
-  exact Impl.sign_verify_spec_partial m O hO p hg hbeta hbg htau heta fuel rho key tr s1 s2 aHat hexp hA hk hs1 hs2 hs2b
-    msg ctx oid phm rnd nist out hsign hcodec
 
 end Fips204.Props.C01
